@@ -15,7 +15,7 @@ class DivergedReplay(Exception):
 
 
 class Scheduler:
-    def __init__(self, prefix=(), only_funcs=None, max_perm_items=4):
+    def __init__(self, prefix=(), only_funcs=None, max_perm_items=6):
         self.prefix = list(prefix)
         self.choices = []        # chosen alternative per choice point
         self.alts = []           # number of alternatives per choice point
@@ -29,9 +29,10 @@ class Scheduler:
         if not self.enabled or len(movable) < 2:
             return items
         mov = movable[:self.max_perm_items]
-        n_alt = 1
-        for k in range(2, len(mov) + 1):
-            n_alt *= k
+        # alternatives: identity, then every transposition (i, j) of two movable items -- every pairwise order inversion is
+        # reachable with one deviation, any permutation with a few
+        pairs = [(a, b) for a in range(len(mov)) for b in range(a + 1, len(mov))]
+        n_alt = 1 + len(pairs)
         i = len(self.choices)
         if i < len(self.prefix):
             c = self.prefix[i]
@@ -44,10 +45,9 @@ class Scheduler:
         self.tags.append(tag)
         if c == 0:
             return items
-        perm = next(itertools.islice(itertools.permutations(range(len(mov))), c, None))
+        a, b = pairs[c - 1]
         out = list(items)
-        for dst, src in zip(mov, perm):
-            out[dst] = items[mov[src]]
+        out[mov[a]], out[mov[b]] = items[mov[b]], items[mov[a]]
         return out
 
 
@@ -99,7 +99,7 @@ class ChoiceSet(MutableSet):
         return cls(it)
 
 
-def explore(run, bound, *, max_runs=200000, only_funcs=None):
+def explore(run, bound, *, max_runs=200000, only_funcs=None, max_perm_items=6):
     """run(sched) -> observation (hashable). Explores all executions with at most `bound` deviations.
     Returns dict(runs, outcomes {obs: example choices}, choice_points_max, capped, schedules [choice tuples])."""
     outcomes = {}
@@ -110,7 +110,7 @@ def explore(run, bound, *, max_runs=200000, only_funcs=None):
         if stats["runs"] >= max_runs:
             stats["capped"] = True
             break
-        s = Scheduler(prefix, only_funcs=only_funcs)
+        s = Scheduler(prefix, only_funcs=only_funcs, max_perm_items=max_perm_items)
         obs = run(s)
         stats["runs"] += 1
         stats["choice_points_max"] = max(stats["choice_points_max"], len(s.choices))
